@@ -107,7 +107,7 @@ theorem ofCfg_eq (conf : Cfg) :
           if (getD (getD conf "release" Cfg.emptyDict) "continuous" (.bool false)).truthy = true then
             match normalizePeriod (periodOf (getD (getD conf "release" Cfg.emptyDict) "release_frequency" (.num 0))) with
             | .error e => .error e
-            | .ok f => .ok (mk conf dt op (some f))
+            | .ok f => if f = 0 then .error .valueError else .ok (mk conf dt op (some f))
           else .ok (mk conf dt op none) := by
   simp only [ofCfg]
   cases (getD (getD conf "time" Cfg.emptyDict) "dt" .null).truthy with
@@ -124,7 +124,10 @@ theorem ofCfg_eq (conf : Cfg) :
         | true =>
           cases normalizePeriod (periodOf (getD (getD conf "release" Cfg.emptyDict) "release_frequency" (.num 0))) with
           | error e => rfl
-          | ok f => simp only [mk, hc]; rfl
+          | ok f =>
+            by_cases hf : f = 0
+            · simp only [hf, if_true]; rfl
+            · simp only [mk, hc, hf, if_false]; rfl
 
 
 /-- what a successful `ofCfg` says -/
@@ -165,8 +168,11 @@ theorem ofCfg_ok (conf : Cfg) (p : Params) (h : ofCfg conf = .ok p) :
           | error e => rw [hf] at h; cases h
           | ok f =>
             rw [hf] at h
-            injection h with h
-            exact ⟨dt, op, some f, rfl, rfl, rfl, fun _ => ⟨f, rfl, rfl⟩, fun hh => (by cases hh), h.symm⟩
+            by_cases hf0 : f = 0
+            · simp only [hf0, if_true] at h; cases h
+            · simp only [hf0, if_false] at h
+              injection h with h
+              exact ⟨dt, op, some f, rfl, rfl, rfl, fun _ => ⟨f, rfl, rfl⟩, fun hh => (by cases hh), h.symm⟩
 
 /-! ### the spellings of a period -/
 
@@ -340,6 +346,76 @@ theorem derived_nonneg (conf : Cfg) (p : Params) (h : ofCfg conf = .ok p) (hdt :
 theorem missing_dt_refused (conf : Cfg) (h : (getD (getD conf "time" Cfg.emptyDict) "dt" .null).truthy = false) :
     ofCfg conf = .error .exit3 := by
   rw [ofCfg_eq, if_pos h]
+
+/-- `normalize_period` refuses with `ValueError` only -/
+theorem normalizePeriod_error (x : PeriodIn) (e : Refusal) (h : normalizePeriod x = .error e) :
+    e = .valueError := by
+  unfold normalizePeriod at h
+  split at h
+  · cases h
+  · split at h
+    · cases h
+    · cases h; rfl
+  · cases h; rfl
+  · split at h
+    · cases h
+    · cases h; rfl
+  · cases h; rfl
+
+/-- **zero_frequency_refused**: a continuous release whose frequency normalises to 0 (whatever its
+    spelling: `0`, `false`, `[0, h]`, `PT0S`, or the key omitted) is refused with `ValueError`, as
+    soon as a time step is given — whatever the rest of the configuration is -/
+theorem zero_frequency_refused (conf : Cfg)
+    (ht : (getD (getD conf "time" Cfg.emptyDict) "dt" .null).truthy = true)
+    (hc : (getD (getD conf "release" Cfg.emptyDict) "continuous" (.bool false)).truthy = true)
+    (hf : normalizePeriod (periodOf (getD (getD conf "release" Cfg.emptyDict) "release_frequency" (.num 0))) = .ok 0) :
+    ofCfg conf = .error .valueError := by
+  rw [ofCfg_eq, ht, hc, hf]
+  simp only [Bool.true_eq_false, if_false, if_true]
+  cases hdt : normalizePeriod (periodOf (getD (getD conf "time" Cfg.emptyDict) "dt" .null)) with
+  | error e => rw [normalizePeriod_error _ _ hdt]
+  | ok dt =>
+    cases hop : normalizePeriod (periodOf (getD (getD conf "output" Cfg.emptyDict) "output_period" .null)) with
+    | error e => rw [normalizePeriod_error _ _ hop]
+    | ok op => rfl
+
+/-- without any assumption on the time step: no parameters come out of such a configuration -/
+theorem zero_frequency_no_params (conf : Cfg)
+    (hc : (getD (getD conf "release" Cfg.emptyDict) "continuous" (.bool false)).truthy = true)
+    (hf : normalizePeriod (periodOf (getD (getD conf "release" Cfg.emptyDict) "release_frequency" (.num 0))) = .ok 0)
+    (p : Params) : ofCfg conf ≠ .ok p := by
+  intro h
+  cases ht : (getD (getD conf "time" Cfg.emptyDict) "dt" .null).truthy with
+  | false => rw [missing_dt_refused conf ht] at h; cases h
+  | true => rw [zero_frequency_refused conf ht hc hf] at h; cases h
+
+/-- the release frequency of accepted parameters: present exactly for a continuous release, it is
+    then the normalised configured value and never 0 -/
+theorem relFreq_ok (conf : Cfg) (p : Params) (h : ofCfg conf = .ok p) :
+    p.relFreq ≠ some 0 ∧
+    (p.continuous = true ↔ ∃ f, p.relFreq = some f) ∧
+    (p.continuous = false ↔ p.relFreq = none) ∧
+    (∀ f, p.relFreq = some f → f ≠ 0 ∧
+      normalizePeriod (periodOf (getD (getD conf "release" Cfg.emptyDict) "release_frequency" (.num 0))) = .ok f) := by
+  obtain ⟨dt, op, rf, -, -, -, hct, hcf, rfl⟩ := ofCfg_ok conf p h
+  have hmc : (mk conf dt op rf).continuous =
+      (getD (getD conf "release" Cfg.emptyDict) "continuous" (.bool false)).truthy := rfl
+  have hmr : (mk conf dt op rf).relFreq = rf := rfl
+  rw [hmc, hmr]
+  cases hc : (getD (getD conf "release" Cfg.emptyDict) "continuous" (.bool false)).truthy with
+  | false =>
+    have := hcf hc
+    subst this
+    simp
+  | true =>
+    obtain ⟨f, hf, rfl⟩ := hct hc
+    have hne : f ≠ 0 := by
+      rintro rfl
+      exact zero_frequency_no_params conf hc hf _ h
+    refine ⟨by simpa using hne, by simp, by simp, ?_⟩
+    intro f' hf'
+    cases hf'
+    exact ⟨hne, hf⟩
 
 /-- **v1_eq_v2_params**: a legacy (version 1) file gives the parameters of its version-2
     translation (`C18.v1_eq_v2`: the translation of `renderV1 s` is `canonV2 s`, a fixed point of
